@@ -115,6 +115,9 @@ class WriteEncoder:
 
     def writeString(self, tag, data, packed = False):
         tok = self.tokenDictionary.getIndex(tag)
+        if tok and not tok[1] and tok[0] in (1, 2):
+            # 1 and 2 are the stream start/end markers, not string tokens: the decoder rejects them in string position
+            tok = None
         if tok:
             index, secondary = tok
             if not secondary:
